@@ -68,6 +68,23 @@ Theorem C17_session_hold_spec : forall c,
   (cfg_hold c = Some 0 -> forall ph, keepalive_period c ph = None).
 Proof. exact session_hold_spec. Qed.
 
+(* backoff.go as used by run(): the first retry of a streak is immediate, then
+   1 s, doubling, capped at 2 minutes; delays never decrease within a streak; a
+   successful connect (Reset) starts afresh *)
+Theorem C17_backoff_delay_spec : forall k,
+  bo_delay k = match k with O => 0 | S j => N.min (1000 * 2 ^ N.of_nat j) bo_max end.
+Proof. exact backoff_delay_spec. Qed.
+
+Theorem C17_backoff_monotone : forall k, bo_delay k <= bo_delay (S k) /\ bo_delay k <= bo_max.
+Proof. exact backoff_monotone. Qed.
+
+Theorem C17_backoff_reset : forall ops1 ops2 b,
+  bo_run b (ops1 ++ false :: ops2) = bo_run b ops1 ++ bo_run bo_reset ops2.
+Proof. exact backoff_reset. Qed.
+
+Theorem C17_backoff_streak : forall k, bo_run bo_reset (repeat true k) = map bo_delay (seq 0 k).
+Proof. exact backoff_streak. Qed.
+
 (* duplicate prefixes in one Set: the last one wins *)
 Theorem C17_set_last_wins : forall l x,
   map_of l x = match find (fun p => fst p =? x) (rev l) with Some p => Some (snd p) | None => None end.
